@@ -171,7 +171,9 @@ theorem step_mlstep (c : Conn) (hq : FixedQ c) (op : Op) : MLStep c (step c op).
   · exact rxMaxData_mlstep c _
   · exact rxMaxStreamData_mlstep c _ _
   · exact rxMaxStreams_mlstep c _ _
-  · exact transportParams_mlstep c _
+  · rcases rxTransportParams_cases c _ with he | he <;> rw [he]
+    · exact MLStep.refl c rfl
+    · exact transportParams_mlstep c _
   · exact unblock_mlstep c _
   · exact rxStopSending_mlstep c _
   · exact rxStreamDataBlocked_mlstep c _
